@@ -9,3 +9,4 @@ import Solvor.Sat.Theorems
 #print axioms Solvor.Sat.distinct_of_blocked
 #print axioms Solvor.Sat.resolve_sound
 #print axioms Solvor.Sat.learn_chain_sound
+#print axioms Solvor.Sat.entailsB_iff
